@@ -78,6 +78,71 @@ CHECKS["C03"] = dict(
          "snapped). Generic (irrational) elements are only checked for validity drift here; their accuracy is the "
          "business of C01/C02/C05.")
 
+CHECKS["C18"] = dict(
+    cat="model_checking", ref="DESIGN.md §5 C18",
+    technique="TLA+ specs PointCloud.tla (set-theoretic definitions of knn/nbr_filter/knn_filter/voxel_filter/"
+              "random_filter + implementation-shaped operators; every ordering of every small cloud, every call) and "
+              "Camera.tla (pinhole model over exact rationals) model-checked by TLC; spec->code table (PointCloudGen.tla) "
+              "replayed on the real functions; code->spec trace validation (PointCloudTrace.tla, CameraTrace.tla) of "
+              "recorded integer inputs/outputs",
+    text="TLC explores every cloud of <=3 (quick) / <=4 (thorough) points on a 3x3 grid (and a 1-D grid) with a feature "
+         "channel, in every ordering (reached by adjacent swaps, so outliers occupy every array position), and every public "
+         "call with every k, n, radius, voxel size and norm 1/2/inf; invariants: the implementation-shaped operators equal "
+         "the brute-force definitions (order statistics by counting, nearest sets as subsets, voxel classes), the linear "
+         "certificate used on recorded runs is sound and complete, knn_filter(radius) = nbr_filter's selection of "
+         "knn_filter(), and every result is permutation-equivariant; a config with the defective gather must be rejected. "
+         "Camera: projection/back-projection mutually inverse, reprojerr zero exactly on produced pixels, homo/cart round "
+         "trip, over integer points x quarter-valued intrinsics x 24 lattice extrinsics. Conformance both ways: TLC "
+         "tabulates the expected result of every call on every enumerated ordering and the real functions are compared "
+         "exactly; ~1000 (quick) recorded runs on integer clouds of 1..300 points, 1..6 dims, feature channels, float32/64, "
+         "batched shapes, outliers at every position, each also in a permuted ordering, are judged event by event by TLC "
+         "(indices, masks, kept rows, squared distances, means/centroids as fractions).",
+    note="Trusted: TLC; exactness of IEEE arithmetic on small integers and snapping of sqrt/mean/projection results to the "
+         "integer / bounded-denominator lattice within 64 eps. Ties are not judged for index claims; closed-ball radius; "
+         "knn_filter(radius) neighbours taken from the whole cloud; pinhole intrinsics without skew, non-zero depth, "
+         "lattice extrinsics; output order of voxel_filter and the choices of the random functions are not judged. "
+         "Found: knn_filter(radius) index-space defect, voxel_filter(random=True) raising on 1-point clouds, pixel2point "
+         "mis-broadcasting batched intrinsics (patch: notes/C18.fix.diff).")
+
+CHECKS["C15"] = dict(
+    cat="model_checking", ref="DESIGN.md §5 C15",
+    technique="TLA+ spec SysTime.tla (time counter + polynomial NLS with symbolic differentiation) model-checked by TLC; "
+              "every tabulated spec transition (SysTimeGen.tla) replayed on real LTI/LTV/NLS objects; trace validation "
+              "(SysTimeTrace.tla) of random call sequences, exact integer LTI/LTV outputs, polynomial linearisations, "
+              "bmv/bvv/bvmv and mpmath-referenced trigonometric programs",
+    text="TLC explores every call sequence of length <= 6 over {Forward, Reset(v), SetSystime(v), SetRefpoint(args)} for "
+         "LTI/LTV/NLS (history kept: time = fold of the history, +1 per call, outputs at the pre-increment index; rich "
+         "alphabet: all 27 optional-argument patterns of NLS.set_refpoint) and checks LinAtRef (matrices read = symbolic "
+         "Jacobians at the reference point, affine model reproduces f,g there, whatever happened since), SecondOrder and "
+         "the exact Taylor remainder over the scalar polynomial grammar (1 860 / 7 320 programs x reference points). "
+         "Conformance both ways: every row of the tabulated spec (all call sequences of length <= 3/4 up to state "
+         "equivalence) is executed on real objects with exact comparison of systime, outputs and A..c2; random integer "
+         "LTI/LTV (batched/unbatched) and random polynomial NLS call sequences, bmv/bvv/bvmv with broadcast batch "
+         "shapes, and trigonometric programs (integer ulp measures vs mpmath) are validated event by event by TLC.",
+    note="Trusted: TLC; exactness of IEEE arithmetic on small integers; mpmath (200 bit) for the Mode-R clause. "
+         "LTV.set_refpoint() without t and set_refpoint with missing state/input before any call are unspecified and "
+         "not generated; systems are called through __call__.")
+
+CHECKS["C14"] = dict(
+    cat="model_checking", ref="DESIGN.md §5 C14",
+    technique="TLA+ specs LQRTime.tla (order of system calls of LQR/MPC and the time index each stage sees) and LQRExact.tla "
+              "(value recursion, roll-out, cost over exact rationals) model-checked by TLC; trace validation of logged real "
+              "solves (LQRTimeTrace.tla); optima tabulated by TLC (LQRExactGen.tla) and real LQR/MPC results judged in ulps "
+              "(LQRExactTrace.tla); float instances against a 60-digit minimiser",
+    text="TLC explores every history of <= 3 solves (plain or inside MPC.forward) interleaved with <= 3 user calls for T in 1..4 "
+         "and LTI/LTV/NLS and checks StageUsesOwnIndex (stage i of every pass evaluates the dynamics at time i); the named "
+         "deviation StaleStart (the unrepaired code) is refuted with a counterexample. On 3 048 integer instances (scalar and "
+         "two-state, LTI and LTV, horizons 1..3) TLC checks that the value recursion's solution is feasible, costs the sum, has "
+         "zero gradient in every input and no better lattice neighbour. Conformance: event logs {solve, pass, stage, time seen} "
+         "of real LQR/MPC solves on logging LTI/LTV/NLS objects (any starting counter, repeated solves, any nominal inputs) are "
+         "validated by TLC; real LQR/MPC results on integer instances (batches 1..3, fresh and used objects) are compared in "
+         "ulps with the fractions TLC computed (starts at x_init, transition at every step, cost = sum, optimum); float "
+         "instances up to n=6, T=20, cond(Q)=1e6 against a 60-digit minimiser; MPC on a nonlinear system for feasibility and "
+         "cost consistency.",
+    note="Trusted: TLC, Python Fraction / mpmath arithmetic of the harness, the logging subclasses' reads of systime. dt = 1 only; "
+         "float instances with cond(H) > 1e7 and integer instances overflowing TLC's 32-bit fractions are skipped and counted; "
+         "optimality beyond the enumerated instances is sampled, not proved.")
+
 REASON_TODO = "check not built yet in this session (planned, see DESIGN.md §5); nothing is claimed for it"
 
 
